@@ -1020,6 +1020,9 @@ func callBuiltin(caller *frame, callpos token.Pos, fn *ssa.Builtin, args []value
 		return nil
 
 	case "delete": // delete(map[K]value, K)
+		if caller != nil && caller.i.eng != nil {
+			caller.i.eng.noteMapWrite(caller, args[0])
+		}
 		switch m := args[0].(type) {
 		case map[value]value:
 			delete(m, args[1])
